@@ -83,7 +83,8 @@ class Planner:
             "explicit_opt": r.random() < 0.3,
             "filter": r.random() < 0.3,
             "qinput": r.random() < 0.3,
-            "lead_ranks": subset(r, [1, 2, 3], 0.5),
+            "lead_ranks": subset(r, [1, 2, 3], 0.5) + ([0] if (r.random() < 0.12 and prop in ("C08", "C09", "C13")) else []),
+            "shared": r.random() < 0.08 and prop == "C08",
         }
         for k, v in (cfg.get("force") or {}).items():
             self.sw[k] = v
@@ -118,6 +119,12 @@ class Planner:
                 items.append(self.act())
         if not any(self.has_quantizable(i) for i in items):
             items.append({"k": "lin", "i": f, "o": self.feat(), "bias": True})
+        if self.sw.get("shared") and r.random() < 0.5:
+            # weight tying: a square Linear used twice in the same Sequential
+            sq = [i for i, it in enumerate(items) if it["k"] == "lin" and it["i"] == it["o"] == f]
+            if sq:
+                items.append({"k": "ref", "to": sq[-1]})
+                return {"k": "seq", "c": items}, in_shape
         return self.wrap(items), in_shape
 
     def act(self):
@@ -128,6 +135,8 @@ class Planner:
         return {"k": k}
 
     def has_quantizable(self, spec):
+        if spec["k"] == "ref":
+            return False
         if spec["k"] in ("lin", "conv"):
             return True
         if spec["k"] in ("seq", "chain"):
